@@ -222,6 +222,43 @@ def argument_form_cases():
         yield {'name': 'argument_form|iast_binary_vle|int_pressure', 'ok': False, 'detail': f"{type(exc).__name__}: {exc}"[:200]}
 
 
+def trace_component_cases(seed=3, n=120):
+    """mixtures in which one component is adsorbed in traces only (affinities and pressures spread over four decades, the trace
+    component listed first or last): the solver's own success flag is not a proof of a root -- whatever is returned has to
+    equalise the spreading pressures, anything else has to be refused"""
+    import pygaps.iast as pgi
+    rnd = random.Random(seed)
+    fixed = [([('Langmuir', {'K': 100.0, 'n_m': 4.0}), ('Langmuir', {'K': 0.5, 'n_m': 0.3})], [0.4, 0.01]),
+             ([('Langmuir', {'K': 10.0, 'n_m': 5.0}), ('Langmuir', {'K': 0.01, 'n_m': 5.0})], [100.0, 0.001]),
+             ([('Langmuir', {'K': 100.0, 'n_m': 3.0}), ('Langmuir', {'K': 1.0, 'n_m': 1.0})], [1.0, 0.01])]
+    cases = list(fixed)
+    for _ in range(n):
+        k = rnd.choice([2, 3])
+        cases.append(([('Langmuir', {'K': 10 ** rnd.uniform(-2, 2), 'n_m': rnd.uniform(0.3, 5)}) for _ in range(k)], [10 ** rnd.uniform(-2, 1) for _ in range(k)]))
+    bad, returned, refused = [], 0, 0
+    for j, (specs, p) in enumerate(cases):
+        for order in (list(range(len(p))), list(range(len(p)))[::-1]):
+            isos = [_iso(specs[i][0], specs[i][1], i) for i in order]
+            pp = [p[i] for i in order]
+            try:
+                got = numpy.asarray(pgi.iast_point(isos, pp, warningoff=True), dtype=float)
+            except Exception:
+                refused += 1
+                continue
+            returned += 1
+            probs = check_equations(isos, pp, got, rtol=1e-4)
+            if probs:
+                bad.append(f"case {j} order {order}: params {[s_[1] for s_ in specs]} p={p}: {probs[0]}")
+    yield {'name': 'trace_components|returned_results_equalise_the_spreading_pressures', 'ok': not bad,
+           'detail': f"{len(bad)} of {returned} returned results are not solutions ({refused} refused); first: {bad[0][:220]}" if bad else f"{returned} returned, {refused} refused"}
+
+
+@replayer('c13.trace')
+def _trace(spec, model):
+    r = list(trace_component_cases())[0]
+    return {'confirmed': not r['ok'], 'observed': r['detail'], 'expected': 'every returned result satisfies the IAST equations'}
+
+
 def guess_cases():
     """user starting guesses, including degenerate ones (a zero fraction, fractions not summing to one): whenever the calculation
     returns, what it returns satisfies the IAST equations -- a result that is not a number is not an answer"""
